@@ -15,7 +15,7 @@ import (
 func HarnessC32() {
 	maxN := 3
 	if zz.Tier() == 1 {
-		maxN = 5
+		maxN = 6
 	}
 	n := zz.IntRange(0, maxN)
 	text := zz.String(n)
